@@ -6,6 +6,7 @@
   `openW / step / close` is the write session (w64_open, the write call's bookkeeping, header updates, w64_close).
 -/
 import SfProofs.W64Session
+import SfProofs.W64Parse
 namespace Sf.C04W64
 open Sf Sf.W64 Sf.CafW64
 
@@ -109,5 +110,39 @@ theorem auto_write_is_snapshot_w64 (c : Cfg) (hwf : c.wf) (stale : Int) (ops : L
 example : ({ codec := 0x10, ch := 1, sr := 8000 } : Cfg).wf ∧ (∀ op ∈ [Op.write 2 [1, 2], .update, .auto true, .write 1 [3]], op.valid { codec := 0x10, ch := 1, sr := 8000 }) ∧
     (close { codec := 0x10, ch := 1, sr := 8000 } (run { codec := 0x10, ch := 1, sr := 8000 } (openW { codec := 0x10, ch := 1, sr := 8000 } 77) [Op.write 2 [1, 2], .update, .auto true, .write 1 [3]])).bytes =
       image { codec := 0x10, ch := 1, sr := 8000 } 3 [1, 2, 3] := by decide +kernel
+
+/-! ### re-opening the closed file -/
+
+/-- `reopen_info` for W64: for every configuration sf_open accepts, every N and every encoded audio of N frames, the reader
+    of the closed file reports the requested channels, W64 | encoding, the requested rate and frames = N; the audio starts
+    right after the header.  (Guard 2^62: the reader treats larger data sizes as damage.) -/
+theorem w64_reopen_info (c : Cfg) (hwf : c.wf) (n : Nat) (data : List Byte) (hd : data.length = n * c.bw)
+    (hsz : hdrLen c + n * c.bw + 24 < 2 ^ 62) :
+    parse (image c n data) =
+      .ok { fmtWord := 0x0B0000 + c.codec, ch := c.ch, sr := c.sr, frames := n, dataoffset := hdrLen c, datalength := n * c.bw } :=
+  parse_image c hwf n data hd hsz
+
+/-- `read_to_eof`: the reported data region is exactly the audio written -/
+theorem w64_reopen_data (c : Cfg) (n : Nat) (data : List Byte) (hd : data.length = n * c.bw) :
+    ((image c n data).drop (hdrLen c)).take (n * c.bw) = data := by
+  have h := hdr_length c n
+  simp only [image, tail, List.append_nil]
+  rw [← h, ← hd]
+  simp
+
+/-- the closed file of ANY valid write session, and the crash-point copy after ANY header update, re-open with the frames
+    written so far (C04 and C11 `snapshot_valid` with the parser in the statement) -/
+theorem w64_session_reopen (c : Cfg) (hwf : c.wf) (stale : Int) (ops : List Op) (hv : ∀ op ∈ ops, op.valid c)
+    (hsz : hdrLen c + sessFrames ops * c.bw + 24 < 2 ^ 62) :
+    parse (close c (run c (openW c stale) ops)).bytes =
+      .ok { fmtWord := 0x0B0000 + c.codec, ch := c.ch, sr := c.sr, frames := sessFrames ops, dataoffset := hdrLen c,
+            datalength := sessFrames ops * c.bw } ∧
+    parse (step c (run c (openW c stale) ops) .update).bytes =
+      .ok { fmtWord := 0x0B0000 + c.codec, ch := c.ch, sr := c.sr, frames := sessFrames ops, dataoffset := hdrLen c,
+            datalength := sessFrames ops * c.bw } := by
+  have i := run_inv (wf_bw_pos hwf) ops (openW_inv c stale) hv
+  rw [stale_frames_ignored_w64 c hwf stale ops hv, snapshot_valid_w64 c hwf stale ops hv]
+  have := parse_image c hwf (sessFrames ops) (sessData ops) (by simpa using i.dlen) hsz
+  exact ⟨this, this⟩
 
 end Sf.C04W64
